@@ -277,3 +277,85 @@ def rule_rowgen(P) -> RuleResult:
         else:
             res.fail(it.fq, f'rowgen:{attr}', f'the {attr} table yields one row per {what} of the ledger', loc(it))
     return res
+
+
+
+# ----------------------------------------------------------------------
+# the derivation of typed-table columns from a record's annotations (part of R-TABLEFIELDS)
+
+def derivation_cases(P, fi, res):
+    """_typed_namedtuple_to_columns(cls, renames): one column per annotated field, read from the field of that name, registered
+    under the (renamed) column name, typed with the *class* under the annotation - Optional[...] and generic aliases are peeled
+    as often as needed (Optional[frozenset[str]] -> frozenset).  The registry model assumes exactly this."""
+    from ..symex import Raise
+    CLS = Sym('RECORD')
+    X, FS = Sym('class X'), Sym('class frozenset')
+    UNION = T('global', ('typing.Union',))
+    NONE_T = T('call', ('type', (None,), ()))
+    # annotation -> (origin, args)
+    ANN = {
+        Sym('X'): (None, ()),
+        Sym('Optional[X]'): (UNION, (X, NONE_T)),
+        Sym('frozenset[str]'): (FS, (Sym('class str'),)),
+        Sym('Optional[frozenset[str]]'): (UNION, (Sym('frozenset[str]'), NONE_T)),
+        Sym('dict'): (None, ()),
+    }
+    ANN[X] = (None, ())
+    ANN[FS] = (None, ())
+    fields = [('plain', Sym('X'), Sym('X')), ('optional', Sym('Optional[X]'), X), ('generic', Sym('frozenset[str]'), FS),
+              ('optional_generic', Sym('Optional[frozenset[str]]'), FS), ('renamed', Sym('X'), Sym('X'))]
+
+    def on_call(fn, fv, rc, a, k, ex, nd):
+        f = str(fn)
+        last = f.split('.')[-1]
+        if last == 'items' and isinstance(rc, T) and rc.op == 'call' and str(rc.args[0]).endswith('get_type_hints'):
+            return SList([T('tuple', (n, ann)) for n, ann, _ in fields])
+        if last == 'get_origin' and len(a) == 1:
+            if a[0] not in ANN:
+                return None
+            return ANN[a[0]][0]
+        if last == 'get_args' and len(a) == 1:
+            return T('tuple', ANN.get(a[0], (None, ()))[1])
+        if last == 'type' and a == (None,):
+            return NONE_T
+        if last == 'GetAttrColumn':
+            return T('new', ('GetAttrColumn', a))
+        return NotImplemented
+
+    def oracle(term, ex):
+        if isinstance(term, T) and term.op == 'cmp' and term.args[0] in ('is', 'is not'):
+            l, r = term.args[1], term.args[2]
+            if NONE_T in (l, r) or UNION in (l, r):
+                eq = l == r
+                return eq if term.args[0] == 'is' else not eq
+            if T('global', ('dict',)) in (l, r):
+                return term.args[0] == 'is not'
+        return None
+    renames = SList([('renamed', 'new_name')], kind='dict')
+    env = {fi.params[0]: CLS}
+    if len(fi.params) > 1:
+        env[fi.params[1]] = renames
+    ok = True
+    paths = Engine(P, on_call=on_call, oracle=oracle, max_unroll=5, globals_={'dict': T('global', ('dict',))}).paths(fi, env)
+    for p in paths:
+        if any(e[0] == 'loop-cut' for e in p.events):
+            continue
+        v = p.value
+        cols = dict(v.items) if isinstance(v, SList) and v.kind == 'dict' and not v.opaque_tail else None
+        if p.outcome != 'return' or cols is None:
+            ok = False
+            res.fail(fi.fq, 'tablefields:derivation', f'the derivation must return the dict of columns; {p.outcome} `{show(v)[:80]}`'
+                     + (f' under `{show(p.decisions[0][0])[:60]}`' if p.decisions else ''), loc(fi))
+            continue
+        for name, ann, want_t in fields:
+            col = 'new_name' if name == 'renamed' else name
+            got = cols.get(col)
+            want = T('new', ('GetAttrColumn', (name, want_t)))
+            if got != want:
+                ok = False
+                res.fail(fi.fq, 'tablefields:derivation', f'field `{name}` annotated {ann.name}: the column `{col}` must be GetAttrColumn('
+                         f'{name!r}, {want_t.name}) - read from the field of that name, typed with the class under the annotation; got '
+                         f'`{show(got)[:100]}`', loc(fi))
+    if ok and paths:
+        res.ok({'function': fi.fq, 'accessor_reads': 'the field name of the record', 'registered_under': 'the renamed column name',
+                'annotations': [a.name for _, a, _ in fields]})
